@@ -620,13 +620,17 @@ fn check_unary32(run: &Run, raw: i32, l: &mut Local) -> bool {
     if Fixed::from_i32(hi).to_bits() != hi << 16 || Fixed::from(hi) != Fixed::from_i32(hi) {
         fail("Fixed::from_i32", "wrong".into());
     }
-    let mut h = Fnv::new();
-    h.str("u32");
-    h.i64(f.to_i32() as i64);
-    h.i64(f.to_f2dot14().to_bits() as i64);
-    l.all.insert(h.finish());
-    if raw != 0 {
-        l.nontrivial.insert(h.finish());
+    // outcome digests are recorded only for values whose low half is a boundary value: the thorough
+    // tier sweeps all 2^32 patterns and must not hold 2^32 digests in memory
+    if matches!(raw as u32 & 0xFFFF, 0 | 1 | 0x7FFF | 0x8000 | 0x8001 | 0xFFFF) || (raw as u32) < 0x1_0000 {
+        let mut h = Fnv::new();
+        h.str("u32");
+        h.i64(f.to_i32() as i64);
+        h.i64(f.to_f2dot14().to_bits() as i64);
+        l.all.insert(h.finish());
+        if raw != 0 {
+            l.nontrivial.insert(h.finish());
+        }
     }
     ok
 }
